@@ -2,7 +2,7 @@
 implementation-level oracle used to search for a concrete failing input."""
 import re
 
-from . import gen_kzg, gen_pc, gen_c16, gen_c13, gen_c08, gen_c09, gen_c14, gen_c15, gen_mlpc
+from . import gen_kzg, gen_pc, gen_c16, gen_c13, gen_c08, gen_c09, gen_c14, gen_c15, gen_mlpc, gen_lig
 from .gen_common import R_BLS381
 from .oracles import pc_honest, pc_mutations, pc_refusals, pc_hiding, pc_domain, pc_serialization
 
@@ -501,6 +501,30 @@ def oracle_c19(case, lo):
     return fails
 
 
+def oracle_lig(case, lo):
+    """univariate Ligero end to end, on library outputs only: the honest proof is accepted for p(z), refused or rejected
+    for p(z) + delta; a mutated proof that the verifier accepts must be one whose checked part is unchanged"""
+    fails = []
+    if case.kind != "c13" or case.fields["sub"][0] != "ligflow":
+        return fails
+    lig = case.fields["lig"]
+    who = "UnivariateLigero(sec=%s, rho_inv=%s, wf=%s), %d coefficients" % (lig[0], lig[1], lig[2], len(case.fields["poly"]))
+    for step in ("commit", "open"):
+        if lib_s(lo, step) != "ok":
+            fails.append("%s: %s aborted: %s" % (who, step, lib_s(lo, step)))
+            return fails
+    if lib_s(lo, "check") != "accept":
+        fails.append("%s: honest opening -> %s" % (who, lib_s(lo, "check")))
+    if lib_s(lo, "check_bad") == "accept":
+        fails.append("%s: p(z) + delta accepted with the honest proof" % who)
+    benign = ("extra_col",)       # zip with the queried indices ignores a trailing column/path
+    for i, kd in enumerate(case.meta.get("mut_kinds", [])):
+        d = lib_s(lo, "mut.%d" % i)
+        if d == "accept" and kd not in benign:
+            fails.append("%s: proof mutation %s (%s) accepted" % (who, kd, " ".join(case.fields["mut.%d" % i][1:])))
+    return fails
+
+
 def oracle_mlpc(case, lo):
     """multilinear PST on library outputs only"""
     fails = []
@@ -592,9 +616,9 @@ def oracle_c16(case, lo):
 PROPS = {
     "C01": {
         "props_file": "props/C01.v",
-        "flows": [(gen_kzg.gen, "c01", 60, 600), (gen_pc.gen, "c01", 96, 960), (gen_mlpc.gen, "c01", 16, 160)],
+        "flows": [(gen_kzg.gen, "c01", 60, 600), (gen_pc.gen, "c01", 96, 960), (gen_mlpc.gen, "c01", 16, 160), (gen_lig.gen, "c01", 12, 120)],
         "filter": None,
-        "oracles": [oracle_c01_kzg, pc_honest, oracle_mlpc, lambda c, lo: pc_mutations(c, lo, ("vperm",))],
+        "oracles": [oracle_c01_kzg, pc_honest, oracle_mlpc, oracle_lig, lambda c, lo: pc_mutations(c, lo, ("vperm",))],
         "title": "Completeness",
     },
     "C16": {
@@ -606,15 +630,15 @@ PROPS = {
     },
     "C02": {
         "props_file": "props/C02.v",
-        "flows": [(gen_kzg.gen, "c02", 60, 600), (gen_pc.gen, "c02", 160, 1600), (gen_mlpc.gen, "c02", 16, 160)],
-        "oracles": [oracle_kzg_muts, oracle_kzg_batches, oracle_mlpc, lambda c, lo: pc_mutations(c, lo, ("value", "comm_swap", "cancel"))],
+        "flows": [(gen_kzg.gen, "c02", 60, 600), (gen_pc.gen, "c02", 160, 1600), (gen_mlpc.gen, "c02", 16, 160), (gen_lig.gen, "c02", 12, 120)],
+        "oracles": [oracle_kzg_muts, oracle_kzg_batches, oracle_mlpc, oracle_lig, lambda c, lo: pc_mutations(c, lo, ("value", "comm_swap", "cancel"))],
         "accept_diffs": ("mut.", "batch."),
         "title": "Evaluation binding (honest proof, false claim)",
     },
     "C03": {
         "props_file": "props/C03.v",
-        "flows": [(gen_kzg.gen, "c03", 40, 400), (gen_pc.gen, "c03", 160, 1600), (gen_mlpc.gen, "c03", 16, 160)],
-        "oracles": [oracle_mlpc, lambda c, lo: pc_mutations(c, lo, ("proofs", "proof_mut", "proof_mut_v", "attack"))],
+        "flows": [(gen_kzg.gen, "c03", 40, 400), (gen_pc.gen, "c03", 160, 1600), (gen_mlpc.gen, "c03", 16, 160), (gen_lig.gen, "c03", 16, 160)],
+        "oracles": [oracle_mlpc, oracle_lig, lambda c, lo: pc_mutations(c, lo, ("proofs", "proof_mut", "proof_mut_v", "attack"))],
         "accept_diffs": ("mut.",),
         "title": "Evaluation binding (crafted proofs)",
     },
@@ -627,8 +651,8 @@ PROPS = {
     },
     "C10": {
         "props_file": "props/C10.v",
-        "flows": [(gen_kzg.gen, "c10", 40, 400), (gen_pc.gen, "c10", 160, 1600)],
-        "oracles": [oracle_kzg_muts, pc_honest, lambda c, lo: pc_mutations(c, lo, ("value", "comm_swap", "cancel", "proof_mut"))],
+        "flows": [(gen_kzg.gen, "c10", 40, 400), (gen_pc.gen, "c10", 160, 1600), (gen_lig.gen, "c10", 16, 160)],
+        "oracles": [oracle_kzg_muts, pc_honest, oracle_lig, lambda c, lo: pc_mutations(c, lo, ("value", "comm_swap", "cancel", "proof_mut"))],
         "accept_diffs": ("mut.", "batch."),
         "title": "Verifiers decide the published relation",
     },
